@@ -313,8 +313,7 @@ theorem testrequest_echoed (sr : Msg → Bool) (env : Env) (h : Int) (c : Conn) 
   rw [recv_testrequest sr env c m hu.active hu.sock hi hm, hl, hj]
   obtain ⟨_, _, _, _, _, f6, f7⟩ := finalized_ctl env (sent c j) m
   refine ⟨?_, rfl, frameOf_testReqId env c mHeartbeat _, ?_⟩
-  · have := writes_append [Effect.write (frameOf env c (echoMsg m))] (finalized env (sent c j) m).2
-    simpa [f7, writes] using this
+  · simp [f7, writes]
   · intro x hx
     rcases List.mem_cons.mp hx with rfl | hx
     · rfl
